@@ -50,8 +50,7 @@ theorem fromInt_u64_big (u : UInt64) (h : ¬ u.toNat < 2 ^ 63) :
 
 
 /-- What the round trip preserves, element by element. -/
-def tagBack (v : Value) : Bool × Nat := (isNull v, backDisc v)
-def tagNow (v : Value) : Bool × Nat := (isNull v, v.disc)
+def tagNow (v : Value) : Bool × Nat := (isNull v, kindDisc v)
 
 theorem beq_int64_self (i : Int64) : Value.beq (.int64 i) (.int64 i) = true := by simp [Value.beq]
 
@@ -63,16 +62,16 @@ theorem beq_small (u : UInt64) (h : u.toNat < 2 ^ 63) :
 
 mutual
 theorem rt (v : Value) (hE : noEnum v = true) (hH : homogeneous v = true) :
-    ∃ p v', toPy v = some p ∧ fromPy p = .ok v' ∧ Value.beq v' v = true ∧ tagNow v' = tagBack v := by
+    ∃ p v', toPy v = some p ∧ fromPy p = .ok v' ∧ Value.beq v' v = true ∧ tagNow v' = tagNow v := by
   match v with
   | .null => exact ⟨_, _, rfl, rfl, rfl, rfl⟩
   | .int64 i => exact ⟨_, _, rfl, by simp [fromPy, fromInt_i64], beq_int64_self i, rfl⟩
   | .uint64 u =>
     by_cases h : u.toNat < 2 ^ 63
     · exact ⟨_, _, rfl, by simp only [fromPy]; exact fromInt_u64_small u h, beq_small u h, by
-        simp [tagNow, tagBack, isNull, backDisc, h, Value.disc]⟩
+        simp [tagNow, isNull, kindDisc, Value.disc]⟩
     · exact ⟨_, _, rfl, by simp only [fromPy]; exact fromInt_u64_big u h, by simp [Value.beq], by
-        simp [tagNow, tagBack, isNull, backDisc, h, Value.disc]⟩
+        simp [tagNow, isNull, kindDisc]⟩
   | .float64 k => exact ⟨_, _, rfl, rfl, by simp [Value.beq], rfl⟩
   | .string s => exact ⟨_, _, rfl, rfl, by simp [Value.beq], rfl⟩
   | .boolean b => exact ⟨_, _, rfl, rfl, by simp [Value.beq], rfl⟩
@@ -82,12 +81,12 @@ theorem rt (v : Value) (hE : noEnum v = true) (hH : homogeneous v = true) :
     simp only [homogeneous, Bool.and_eq_true] at hH
     obtain ⟨ps, l', h1, h2, h3, h4⟩ := rtList l hE hH.1
     have hc : listCheck l' = true := by
-      have : listCheck l' = backCheck l := checkBy_congr h4
+      have : listCheck l' = listCheck l := checkBy_congr h4
       rw [this]; exact hH.2
     refine ⟨.list ps, .list l', by simp [toPy, h1], by simp [fromPy, h2, hc], by simpa [Value.beq] using h3, rfl⟩
 theorem rtList (l : List Value) (hE : noEnumList l = true) (hH : homogeneousList l = true) :
     ∃ ps l', toPyList l = some ps ∧ fromPyList ps = .ok l' ∧ Value.beqList l' l = true ∧
-      l'.map tagNow = l.map tagBack := by
+      l'.map tagNow = l.map tagNow := by
   match l with
   | [] => exact ⟨[], [], rfl, rfl, rfl, rfl⟩
   | v :: vs =>
@@ -103,28 +102,25 @@ end
 def ptag (p : Py) : Bool × Nat := (pyIsNone p, pyDisc p)
 
 theorem fromInt_spec (z : Int) :
-    isOk (fromInt z) = !(!fitsI64 z && !fitsU64 z && (intToF64Key z).isNone) ∧
+    isOk (fromInt z) = !(!fitsI64 z && !fitsU64 z) ∧
     ∀ v, fromInt z = .ok v → tagNow v = ptag (.int z) := by
   unfold fromInt
   by_cases h1 : fitsI64 z = true
-  · simp [h1, isOk, tagNow, ptag, isNull, pyIsNone, pyDisc, Value.disc]
+  · simp [h1, isOk, tagNow, ptag, isNull, pyIsNone, pyDisc, kindDisc, Value.disc]
   · by_cases h2 : fitsU64 z = true
-    · simp [h1, h2, isOk, tagNow, ptag, pyIsNone, pyDisc, Value.disc, isNull]
-    · cases h3 : intToF64Key z with
-      | none => simp [h1, h2, isOk]
-      | some k =>
-        simp [h1, h2, isOk, tagNow, ptag, pyIsNone, pyDisc, Value.disc, isNull]
+    · simp [h1, h2, isOk, tagNow, ptag, pyIsNone, pyDisc, kindDisc, isNull]
+    · simp [h1, h2, isOk]
 
 mutual
 theorem rej (p : Py) :
     isOk (fromPy p) = !rejects p ∧ ∀ v, fromPy p = .ok v → tagNow v = ptag p := by
   match p with
-  | .none => simp [fromPy, isOk, rejects, tagNow, ptag, isNull, pyIsNone, pyDisc, Value.disc]
-  | .bool b => simp [fromPy, isOk, rejects, tagNow, ptag, isNull, pyIsNone, pyDisc, Value.disc]
+  | .none => simp [fromPy, isOk, rejects, tagNow, ptag, isNull, pyIsNone, pyDisc, kindDisc, Value.disc]
+  | .bool b => simp [fromPy, isOk, rejects, tagNow, ptag, isNull, pyIsNone, pyDisc, kindDisc, Value.disc]
   | .int z => simpa [fromPy, rejects] using fromInt_spec z
-  | .float k => simp [fromPy, isOk, rejects, tagNow, ptag, isNull, pyIsNone, pyDisc, Value.disc]
+  | .float k => simp [fromPy, isOk, rejects, tagNow, ptag, isNull, pyIsNone, pyDisc, kindDisc, Value.disc]
   | .floatNonFinite => simp [fromPy, isOk, rejects]
-  | .str s => simp [fromPy, isOk, rejects, tagNow, ptag, isNull, pyIsNone, pyDisc, Value.disc]
+  | .str s => simp [fromPy, isOk, rejects, tagNow, ptag, isNull, pyIsNone, pyDisc, kindDisc, Value.disc]
   | .other => simp [fromPy, isOk, rejects]
   | .list l =>
     obtain ⟨h1, h2⟩ := rejList l
@@ -140,7 +136,7 @@ theorem rej (p : Py) :
       have hc : listCheck vs = pyListCheck l := checkBy_congr hm
       simp only [isOk, Bool.true_eq, Bool.not_eq_true'] at h1
       by_cases hk : pyListCheck l = true
-      · simp [hc, hk, isOk, h1, tagNow, ptag, isNull, pyIsNone, pyDisc, Value.disc]
+      · simp [hc, hk, isOk, h1, tagNow, ptag, isNull, pyIsNone, pyDisc, kindDisc, Value.disc]
       · simp [hc, hk, isOk, h1]
 theorem rejList (ps : List Py) :
     isOk (fromPyList ps) = !rejectsAny ps ∧
@@ -165,28 +161,27 @@ end
 
 /-! ### Python → Rust → Python -/
 
-theorem fromInt_back (z : Int) (h : (fitsI64 z || fitsU64 z) = true) (v : Value)
-    (hv : fromInt z = .ok v) : toPy v = some (.int z) := by
+theorem fromInt_back (z : Int) (v : Value) (hv : fromInt z = .ok v) : toPy v = some (.int z) := by
   unfold fromInt at hv
   by_cases h1 : fitsI64 z = true
   · simp [h1] at hv; subst hv
     simp only [fitsI64, Bool.and_eq_true, decide_eq_true_eq] at h1
     simp [toPy, Int64.toInt_ofInt_of_le h1.1 h1.2]
-  · have h2 : fitsU64 z = true := by simpa [h1] using h
-    simp [h1, h2] at hv; subst hv
-    simp only [fitsU64, Bool.and_eq_true, decide_eq_true_eq] at h2
-    have : z.toNat < UInt64.size := by
-      have := h2.2; simp [UInt64.size]; omega
-    simp [toPy, UInt64.toNat_ofNat_of_lt' this]
-    omega
+  · by_cases h2 : fitsU64 z = true
+    · simp [h1, h2] at hv; subst hv
+      simp only [fitsU64, Bool.and_eq_true, decide_eq_true_eq] at h2
+      have : z.toNat < UInt64.size := by
+        have := h2.2; simp [UInt64.size]; omega
+      simp [toPy, UInt64.toNat_ofNat_of_lt' this]
+      omega
+    · simp [h1, h2] at hv
 
 mutual
-theorem back (p : Py) (h : intsInRange p = true) (v : Value) (hv : fromPy p = .ok v) :
-    toPy v = some p := by
+theorem back (p : Py) (v : Value) (hv : fromPy p = .ok v) : toPy v = some p := by
   match p with
   | .none => simp [fromPy] at hv; subst hv; rfl
   | .bool b => simp [fromPy] at hv; subst hv; rfl
-  | .int z => exact fromInt_back z (by simpa [intsInRange] using h) v (by simpa [fromPy] using hv)
+  | .int z => exact fromInt_back z v (by simpa [fromPy] using hv)
   | .float k => simp [fromPy] at hv; subst hv; rfl
   | .floatNonFinite => simp [fromPy] at hv
   | .str s => simp [fromPy] at hv; subst hv; rfl
@@ -199,14 +194,13 @@ theorem back (p : Py) (h : intsInRange p = true) (v : Value) (hv : fromPy p = .o
       simp only [hl] at hv
       split at hv
       · simp at hv; subst hv
-        simp [toPy, backList l (by simpa [intsInRange] using h) vs hl]
+        simp [toPy, backList l vs hl]
       · simp at hv
-theorem backList (ps : List Py) (h : intsInRangeList ps = true) (vs : List Value)
-    (hv : fromPyList ps = .ok vs) : toPyList vs = some ps := by
+theorem backList (ps : List Py) (vs : List Value) (hv : fromPyList ps = .ok vs) :
+    toPyList vs = some ps := by
   match ps with
   | [] => simp [fromPyList] at hv; subst hv; rfl
   | p :: ps =>
-    simp only [intsInRangeList, Bool.and_eq_true] at h
     simp only [fromPyList] at hv
     cases hp : fromPy p with
     | error e => simp [hp] at hv
@@ -215,6 +209,6 @@ theorem backList (ps : List Py) (h : intsInRangeList ps = true) (vs : List Value
       | error e => simp [hp, hps] at hv
       | ok vs' =>
         simp [hp, hps] at hv; subst hv
-        simp [toPyList, back p h.1 v hp, backList ps h.2 vs' hps]
+        simp [toPyList, back p v hp, backList ps vs' hps]
 end
 end TF.PyValue
